@@ -408,9 +408,14 @@ def run_cbmc(proof, gb, tmp, log, backend=None, extra=None, timeout=None, ui="xm
     log.append("$ " + " ".join(cmd))
     rc, out, err, secs = sh(cmd, cwd=tmp, timeout=timeout or proof.get("timeout", 900), mem_gb=mem)
     results, status, msgs = parse_cbmc_xml(out, props)
-    if results is not None and props and len(results) != len(props) and not (extra and "--property" in extra):
-        msgs.append("ERROR: incomplete result list: %d results for %d properties" % (len(results), len(props)))
-        results = None
+    if results is not None and props and not (extra and "--property" in extra):
+        # every listed property must have a verdict (unwinding assertions are generated during symbolic execution and
+        # appear in the results only: extra results are fine)
+        missing = set(props) - {q["property"] for q in results}
+        if missing:
+            msgs.append("ERROR: incomplete result list: %d of %d properties have no verdict (e.g. %s)"
+                        % (len(missing), len(props), sorted(missing)[0]))
+            results = None
     return dict(rc=rc, results=results, status=status, msgs=msgs, secs=secs, cmd=" ".join(cmd),
                 rss_gb=LAST_RSS.get(threading.get_ident()),
                 err=err[-2000:], raw_tail=out[-2000:])
